@@ -515,13 +515,23 @@ func runShards(states []StateSpec, shards int, outPrefix string, so sessOpts) []
 			defer tw.Close()
 			var env *Env
 			var cur *World
+			// every shard builds the worlds for itself: a schema is caller-owned data that the library must not write, and a
+			// write into a schema shared by the shards would crash the driver (concurrent map access) instead of showing in
+			// the fingerprint of the context
+			own := map[*World]*World{}
 			for i := s; i < len(states); i += shards {
 				st := states[i]
 				if env == nil || cur != st.World {
 					if env != nil {
 						tw.Emit(Event{"ev": "Reset"})
 					}
-					env = newEnv(st.World, "p1")
+					if own[st.World] == nil {
+						own[st.World] = st.World
+						if nw := worldByName(st.World.Name); nw != nil {
+							own[st.World] = nw
+						}
+					}
+					env = newEnv(own[st.World], "p1")
 					for _, pk := range sortedPeerKeys(st.World) {
 						if !env.R.Failing[pk] {
 							env.Recollect(ws[s], pk)
